@@ -276,9 +276,23 @@ class DType:
         raise Unsupported("dtype ordering")
 
 
+class IndexUnion:
+    def __init__(self, parts):
+        self.parts = parts
+
+    def __deepcopy__(self, memo):
+        return self
+
+
 class IndexOf:
     def __init__(self, owner):
         self.owner = owner
+
+    def hv_call_method(self, ex, attr, args, kwargs, pc, env):
+        if attr == "union" and isinstance(args[0], IndexOf):
+            _assume("pandas Index.union: the labels of either index")
+            return IndexUnion([self.owner, args[0].owner])
+        return NotImplemented
 
     def hv_setattr(self, ex, attr, v, pc):
         if attr in ("names", "name"):
@@ -405,6 +419,14 @@ class Loc:
             if idx.col.dtype == "bool":
                 return df.select(idx)
             return df.select_labels(ex, idx)
+        if isinstance(idx, IndexUnion):
+            # labels of sub-frames of this very frame (same universe, labels untouched, unique): the rows of either part
+            parts = idx.parts
+            if not all(isinstance(p_, SymDF) and p_.uni is df.uni and p_.label is df.label for p_ in parts):
+                raise Unsupported("df.loc[index union] of frames that are not label-preserving sub-frames of df")
+            _assume("pandas df.loc[labels] with unique labels: the rows carrying those labels")
+            pres = df.present
+            return SymDF(df.uni, df.cols, lambda r: z_and(pres(r), z_or(*[p_.present(r) for p_ in parts])), df.label, df.name + "_locu", df.order)
         raise Unsupported("loc row selector")
 
     def hv_setitem(self, ex, idx, v, pc):
@@ -845,7 +867,7 @@ def join(ex, left: SymDF, right: SymDF, kwargs, pc) -> SymDF:
     on = kwargs.get("on")
     rsuffix = kwargs.get("rsuffix", "")
     how = kwargs.get("how", "left")
-    if not isinstance(on, str) or how != "left" or not isinstance(right, SymDF):
+    if (on is not None and not isinstance(on, str)) or how != "left" or not isinstance(right, SymDF):
         raise Unsupported("join pattern")
     if right.label is None:
         raise Unsupported("join against a frame with unknown labels")
@@ -853,7 +875,11 @@ def join(ex, left: SymDF, right: SymDF, kwargs, pc) -> SymDF:
             "up by label == key, NaN where no label matches")
     k = next(_uid)
     # the key may be the left frame's index (set_index(key) was applied before) or a column
-    if on in left.cols:
+    if on is None:
+        if left.label is None:
+            raise Unsupported("index join from a frame with unknown labels")
+        keyv = left.label
+    elif on in left.cols:
         keyv = left.cols[on].val
     elif getattr(left, "label_name", None) == on and left.label is not None:
         keyv = left.label
@@ -867,8 +893,9 @@ def join(ex, left: SymDF, right: SymDF, kwargs, pc) -> SymDF:
     m2 = right.uni.skolem(f"jn{k}")
     ex.facts.append(z3.ForAll(list(r) + list(m), z3.Implies(z3.And(to_z3(rp(m)), to_z3(rl(m)) == to_z3(keyv(r))),
                                                            z3.And(to_z3(rp(w(r))), to_z3(rl(w(r))) == to_z3(keyv(r))))))
-    ex.oblige(f"join_right_labels_unique_{k}", [to_z3(rp(m)), to_z3(rp(m2)), to_z3(rl(m)) == to_z3(rl(m2))] + list(ex.facts),
-              z3.And(*[a == b for a, b in zip(m, m2)]), "the joined frame's labels must be unique (otherwise join duplicates left rows)")
+    lr = left.uni.skolem(f"jl{k}")
+    ex.oblige(f"join_right_labels_unique_{k}", [to_z3(rp(m)), to_z3(rp(m2)), to_z3(rl(m)) == to_z3(rl(m2)), to_z3(left.present(lr)), to_z3(keyv(lr)) == to_z3(rl(m))] + list(ex.facts),
+              z3.And(*[a == b for a, b in zip(m, m2)]), "labels of the joined frame that are matched by a left row must be unique (otherwise join duplicates left rows)")
 
     def hit(rr):
         return z_and(rp(w(rr)), to_z3(rl(w(rr))) == to_z3(keyv(rr)))
@@ -889,6 +916,9 @@ def join(ex, left: SymDF, right: SymDF, kwargs, pc) -> SymDF:
 
 
 def query_mask(ex, df: SymDF, expr: str, env, pc) -> SymSeries:
+    holes: Dict[str, Any] = {}
+    if isinstance(expr, pyvc.TemplateStr):
+        holes, expr = expr.holes, expr.text
     if not isinstance(expr, str):
         raise Unsupported("query with a symbolic / non-literal string")
     src = expr.replace("@", "__at__")
@@ -914,6 +944,8 @@ def query_mask(ex, df: SymDF, expr: str, env, pc) -> SymSeries:
                 left = right
             return z_and(*res)
         if isinstance(n, ast.Name):
+            if n.id in holes:
+                return holes[n.id]
             if n.id.startswith("__at__"):
                 nm = n.id[len("__at__"):]
                 if nm not in env:
